@@ -54,5 +54,11 @@ def opsolve_runs(ctx, cvxopt):
             ctx.violation('c02:op.solve-values:' + kind, 'op.solve on an unbounded LP: multipliers must be None and variable values a certificate', {'kind': kind})
     return n
 
-def search(ctx, why): return
+def search(ctx, why):
+    """a proof obligation about the certificate returns no longer checks: look for an infeasible / unbounded instance with several 's' blocks
+    whose returned certificate fails the Lean checker"""
+    import cvxopt            # already imported from the S0 build by correspond()
+    n = 150 if ctx.quick() else 1500
+    stats, tags, judged, lines = certlib.cone_runs(ctx, cvxopt, ['pinf', 'dinf'], n, 3, 'c02', focus='s-blocks')
+    ctx.cov['search'] = {'instances': n, 'judged': judged, 'statuses': stats}
 def replay(ctx, payload): correspond(ctx)
